@@ -44,6 +44,7 @@ def run(F, rep, tier):
     newline_flag(F, rep)
     comments(F, rep)
     no_layout_flow(F, rep)
+    paren_transparent(F, rep)
 
 
 def one_call_node(F, rep):
@@ -358,6 +359,56 @@ def cursor(F, rep):
            "followed by one) is moved to the next significant token", fpush["sp"])
 
 
+def paren_transparent(F, rep):
+    """`(e)` resolves to `e` (Resolver::expression's Parenthesis arm), so a redundant pair of parentheses can only matter
+    where name resolution looks at the *shape* of an unresolved expression (`matches!(value.kind, Function { .. })` decides
+    whether a definition may refer to itself, whether a blob field gets `self`).  Every such test has to look through
+    parentheses."""
+    NRP = "sylt_compiler::name_resolution::"
+    EKP = "sylt_parser::expression::ExpressionKind"
+    n = 0
+    for fn in F.fns_in(NRP):
+        fname = last(fn["_path"], 2)
+        k = 0
+        for m in nodes(fn_body(fn), "Match"):
+            if not ty_is((m.get("scrut_ty") or "").lstrip("&"), EKP):
+                continue
+            scr = peel(m["scrut"])
+            # the fold's own dispatch: `match &expression.kind` on the function's parameter
+            is_shape_test = any(x == "matches" for x in m.get("mac", []))
+            if not is_shape_test:
+                continue
+            n += 1
+            k += 1
+            base = scr
+            while base.get("k") in ("Field", "Unary"):
+                base = peel(base["e"])
+            through = False
+            if base.get("k") in ("Call", "MethodCall"):
+                cal = F.fns.get(callee(base) or "")
+                if cal is not None:
+                    through = any((pat_variant(alt) or "").endswith("ExpressionKind::Parenthesis")
+                                  for x in nodes(fn_body(cal)) if x.get("k") in ("Match", "LetCond", "While")
+                                  for alt in _pats_of(x))
+            rep.ob("PARENS", "%s|shape-test#%d" % (fname, k), through,
+                   ("the shape test `%s` looks through parentheses" % pp(m)[:60].replace("\n", " ")) if through else
+                   ("`%s` tests the outermost node of an unresolved expression: wrapped in redundant parentheses the expression is "
+                    "classified differently (`f :: (fn n do .. f(n - 1) .. end)` cannot see itself; a parenthesised blob field function "
+                    "gets no `self`)" % pp(m)[:70].replace("\n", " ")), line_of(m))
+    rep.floor("PARENS", "shape tests on unresolved expressions", n, 2)
+
+
+def _pats_of(x):
+    if x.get("k") == "Match":
+        return [alt for a in x["arms"] for alt in pat_alternatives(a["pat"])]
+    if x.get("k") == "LetCond":
+        return pat_alternatives(x["pat"])
+    if x.get("k") == "While":
+        c = peel(x.get("cond") or {})
+        return pat_alternatives(c["pat"]) if c.get("k") == "LetCond" else []
+    return []
+
+
 def no_layout_flow(F, rep):
     n = 0
     def pred(path, ty, o):
@@ -378,6 +429,8 @@ def no_layout_flow(F, rep):
                                                             "used: layout can reach the generated code" if used else "unused"), fn["sp"])
     proj = []
     for fn, node in nonint.field_projections(F, lambda t: t.replace("&", "").strip().endswith("Span")):
+        if node["name"] == "file_id":
+            continue  # which file a variable is declared in is not layout (comments, blank lines, line breaks cannot change it)
         proj.append((last(fn["_path"], 2), node["name"]))
     rep.ob("NO-LAYOUT-FLOW", "span-projections", proj == [("IRCodeGen::statement", "line_start")],
            "the only span field read by lowering/emission is line_start in IRCodeGen::statement (%s)" % proj)
